@@ -30,6 +30,10 @@ NOT_ENTRY = {
     "JitRuntime::reset": "delegates to JitAllocator::reset (not thread-safe by contract)",
 }
 MAX_DEPTH = 24
+# methods of these classes, when called from an entry point, run on an object owned by the calling thread (the CodeHolder passed to
+# JitRuntime::add). The library has no writable statics (WritableGlobals), so such a call can only reach memory through that object:
+# member accesses inside are thread-owned and are not emitted; calls, statics, locks inside ARE still emitted and checked.
+OWNED_CONTEXT_CLASSES = ("CodeHolder",)
 
 
 class TU:
@@ -170,6 +174,9 @@ class Builder:
         self.order = []         # definition order of inlined functions
         self.stack = []
         self.retref = [False]   # does the function being translated return a reference? (return <lvalue> is then no access)
+        self.owned = 0          # > 0 while translating the body of a method of OWNED_CONTEXT_CLASSES (and everything it calls)
+        self.owned_skipped = 0  # member accesses inside such a context (thread-owned by construction): not emitted
+        self.recursive_calls = 0
         self.local_skipped = 0  # member accesses on automatic (local) objects of tracked classes: thread-local, not emitted
         self.dtor_inlined = 0   # implicit destructor calls of locals that were inlined
         self.dying = [set()]    # per function: pointer variables whose object is freed in this function (finalisation)
@@ -356,6 +363,9 @@ class Builder:
                 # member function reference outside a call (or static member): evaluate base
                 return E(base) if base else ("skip",)
             cls, fld, is_ptr = fi
+            if self.owned:
+                self.owned_skipped += 1
+                return E(base) if base is not None else ("skip",)
             if self._rooted_at_local(tu, n):
                 # member of an automatic object (e.g. `VirtMem::DualMapping virt_mem` in JitAllocator_new_block): not shared
                 self.local_skipped += 1
@@ -552,17 +562,28 @@ class Builder:
         if df is None and d.get("mangledName") and d["mangledName"] in self.mangled:
             ti, df = self.mangled[d["mangledName"]]
         if df is None:
-            if re.match(r"^__builtin_(expect|assume|unreachable|c[lt]z|popcount|bswap|ffs|assume_aligned|constant_p|is_constant_evaluated)", qname):
+            if re.match(r"^__builtin_(expect|assume|unreachable|c[lt]z|popcount|bswap|ffs|assume_aligned|constant_p|is_constant_evaluated|[us](add|sub|mul)l*_overflow)", qname):
                 return ("skip",)    # compiler intrinsics without memory effects
             return ("call", fn, re.sub(r"<.*>", "", qname))
-        key = (ti, df["id"])
-        if key in self.stack or len(self.stack) >= MAX_DEPTH:
-            return ("call", fn, "<recursive:%s>" % qname)
+        fname = re.sub(r"<.*>", "", self.tus[ti].func_name(df))
+        enter_owned = any(fname.startswith(c + "::") for c in OWNED_CONTEXT_CLASSES)
+        key = (ti, df["id"], bool(self.owned or enter_owned))
+        if key in self.stack:
+            self.recursive_calls += 1
+            return ("skip",)      # recursion: the body is already part of the enclosing skeleton (same lock context)
+        if len(self.stack) >= MAX_DEPTH:
+            return ("call", fn, "<too deep:%s>" % qname)
         if key not in self.memo:
             self.stack.append(key)
-            tree = self.function(self.tus[ti], df)
+            if enter_owned:
+                self.owned += 1
+            try:
+                tree = self.function(self.tus[ti], df)
+            finally:
+                if enter_owned:
+                    self.owned -= 1
             self.stack.pop()
-            self.memo[key] = (self.tus[ti].func_name(df), tree)
+            self.memo[key] = (self.tus[ti].func_name(df) + (" [owned context]" if key[2] else ""), tree)
             self.order.append(key)
         nm, tree = self.memo[key]
         if tree == ("skip",) or tree == ("ret",):
@@ -614,7 +635,9 @@ class Builder:
             if k == "CXXCtorInitializer":
                 ai = c.get("anyInit")
                 sub = [self.expr(tu, name, x) for x in c.get("inner", []) or []]
-                if ai and ai.get("kind") == "FieldDecl":
+                if ai and ai.get("kind") == "FieldDecl" and self.owned:
+                    self.owned_skipped += 1
+                elif ai and ai.get("kind") == "FieldDecl":
                     cls = tu.strip_ns(re.sub(r"<.*>", "", tu.owner.get(ai.get("id")) or rec or "?"))
                     sub.append(("acc", name, cls, ai.get("name", "?"), "I"))   # initialisation of a member of the object under construction
                 ev.append(seq(sub))
@@ -882,7 +905,8 @@ def count_events(t, memo, acc):
 
 
 def build(repo):
-    files = [os.path.join(repo, "asmjit/core/jitallocator.cpp"), os.path.join(repo, "asmjit/core/jitruntime.cpp")]
+    files = [os.path.join(repo, "asmjit/core/jitallocator.cpp"), os.path.join(repo, "asmjit/core/jitruntime.cpp"),
+             os.path.join(repo, "asmjit/core/codeholder.cpp")]     # the third only provides bodies for the CodeHolder calls of JitRuntime::_add
     tus = [TU(f, repo) for f in files]
     for tu in tus:
         mark_file_scope(tu)
@@ -996,7 +1020,8 @@ def gen_skeleton(repo):
     out.append("")
     return "\n".join(out).replace(repo.rstrip("/") + "/", ""), {"entry_points": [s for s, _, _ in sorted(eps)], "excluded": sorted(excluded), "events": stats,
                             "inlined_functions": len(b.order), "unknown_ast_kinds": b.unknown_ctx, "untranslated_nodes": b.unvisited, "local_object_accesses_skipped": b.local_skipped,
-                            "implicit_destructors_inlined": b.dtor_inlined,
+                            "implicit_destructors_inlined": b.dtor_inlined, "owned_context_accesses_skipped": b.owned_skipped,
+                            "recursive_calls_folded": b.recursive_calls,
                             "lock_impl": li, "_builder": b, "_eps": eps}
 
 
@@ -1090,3 +1115,250 @@ if __name__ == "__main__":
         sys.stdout.write(txt)
     info.pop("_builder"); info.pop("_eps")
     sys.stderr.write(json.dumps(info, indent=1)[:6000] + "\n")
+
+
+# ---------------------------------------------------------------------------------------------------- statics skeleton (VirtMem, CpuInfo::host)
+STATIC_TUS = [("asmjit/core/virtmem.cpp", lambda q: q.startswith("VirtMem::") and q.count("::") == 1),
+              ("asmjit/core/cpuinfo.cpp", lambda q: q == "CpuInfo::host")]
+
+
+class StaticsBuilder:
+    """skeleton of the accesses to variables with static storage duration in the functions that own process-wide caches:
+       VAtomic name          operation on a std::atomic static
+       VPlainR / VPlainW     read / write of a non-atomic static
+       VGuard flag body      `if (!flag.load())` / `if (!flag)`: body runs only if the flag was observed zero
+       VCall callee          opaque call; VSeq/VAlt/VLoop/VRet/VSkip as in the lock skeleton
+    helpers defined in the same source file are inlined."""
+
+    def __init__(self, tu, main_file):
+        self.tu = tu
+        self.main = main_file
+        self.memo = {}
+        self.stack = []
+
+    def static_var(self, n):
+        if n.get("kind") != "DeclRefExpr":
+            return None
+        rd = n.get("referencedDecl") or {}
+        if rd.get("kind") != "VarDecl":
+            return None
+        v = self.tu.byid.get(rd.get("id"), rd)
+        if not v.get("_filescope") or v.get("constexpr"):
+            return None
+        t = v.get("type") or {}
+        q, dq = t.get("qualType", ""), t.get("desugaredQualType", t.get("qualType", ""))
+        if q.startswith("const ") or dq.startswith("const "):
+            return None
+        atomic = bool(re.match(r"^(volatile )?std::atomic<", dq) or re.match(r"^(volatile )?std::atomic<", q))
+        return self.tu.strip_ns(self.tu.qual.get(v.get("id"), v.get("name", "?"))), atomic
+
+    def zero_test_flag(self, cond):
+        """`!flag.load(...)` or `!flag` on a static -> flag name"""
+        c = Builder._strip(cond)
+        while c.get("kind") in ("CallExpr",) and (Builder._strip((c.get("inner") or [{}])[0]).get("referencedDecl") or {}).get("name") == "__builtin_expect":
+            c = Builder._strip(c["inner"][1])
+        if c.get("kind") == "UnaryOperator" and c.get("opcode") == "!":
+            x = Builder._strip(c["inner"][0])
+            if x.get("kind") == "CXXMemberCallExpr":
+                callee = Builder._strip(x["inner"][0])
+                if callee.get("kind") == "MemberExpr" and callee.get("name") == "load":
+                    x = Builder._strip(callee["inner"][0])
+            sv = self.static_var(x)
+            if sv:
+                return sv[0]
+        return None
+
+    def walk(self, fn, n, mode="r"):
+        if not isinstance(n, dict):
+            return ("skip",)
+        k = n.get("kind")
+        inner = [c for c in n.get("inner", []) or [] if isinstance(c, dict)]
+        W = lambda c, m="r": self.walk(fn, c, m)
+        sv = self.static_var(n)
+        if sv:
+            name, atomic = sv
+            if atomic:
+                return ("vatomic", fn, name)
+            return seq([("vplain", fn, name, "R" if m == "r" else "W") for m in (("r", "w") if mode == "rw" else (mode,))])
+        if k in ("UnaryExprOrTypeTraitExpr", "CXXNoexceptExpr", "StaticAssertDecl", "FullComment"):
+            return ("skip",)
+        if k == "BinaryOperator":
+            op = n.get("opcode")
+            if op == "=":
+                return seq([W(inner[1]), W(inner[0], "w")])
+            if op in ("&&", "||"):
+                return seq([W(inner[0]), alt(W(inner[1]), ("skip",))])
+            return seq([W(c) for c in inner])
+        if k == "CompoundAssignOperator":
+            return seq([W(inner[1]), W(inner[0], "rw")])
+        if k == "UnaryOperator" and n.get("opcode") in ("++", "--"):
+            return W(inner[0], "rw")
+        if k == "UnaryOperator" and n.get("opcode") == "&":
+            return W(inner[0], "w")          # address taken: conservative
+        if k in ("CallExpr", "CXXMemberCallExpr", "CXXOperatorCallExpr"):
+            ev = []
+            c0 = Builder._strip(inner[0]) if inner else {}
+            d = None
+            args = inner[1:]
+            if c0.get("kind") == "DeclRefExpr" and (c0.get("referencedDecl") or {}).get("kind") in FUNC_KINDS:
+                d = self.tu.byid.get(c0["referencedDecl"].get("id"), c0["referencedDecl"])
+            elif c0.get("kind") == "MemberExpr":
+                d = self.tu.byid.get(c0.get("referencedMemberDecl"))
+                obj = (c0.get("inner") or [None])[0]
+                dqt = ((d or {}).get("type") or {}).get("qualType", "")
+                if obj is not None:
+                    ev.append(W(obj, "r" if re.search(r"\)\s*const\b", dqt) else "w"))
+            if k == "CXXOperatorCallExpr" and d is not None and d.get("name") == "operator=" and args:
+                ev.append(W(args[0], "w"))
+                args = args[1:]
+            pm = Builder.param_modes(d) if d is not None else []
+            off = 1 if (k == "CXXOperatorCallExpr" and d is not None and d.get("kind") == "CXXMethodDecl" and d.get("name") != "operator=") else 0
+            for i, a in enumerate(args):
+                m, pt = pm[i - off] if 0 <= i - off < len(pm) else (None, None)
+                ev.append(W(a, "w" if (m == "w" or pt == "w") else "r"))
+            if d is not None:
+                df = self.tu.defs.get(d.get("id"))
+                name = self.tu.func_name(df) if df is not None else self.tu.strip_ns(self.tu.qual.get(d.get("id"), d.get("name", "?")))
+                if df is not None and self.in_main(df):
+                    ev.append(self.inline(df))
+                elif not re.match(r"^(__builtin_|std::|operator)", name) and df is None:
+                    ev.append(("vcall", fn, re.sub(r"<.*>", "", name)))
+            return seq(ev)
+        if k == "IfStmt":
+            has_else = n.get("hasElse")
+            if has_else:
+                pre, th, el = inner[:-2], inner[-2], inner[-1]
+            else:
+                pre, th, el = inner[:-1], inner[-1], None
+            flag = self.zero_test_flag(pre[-1]) if pre else None
+            cond = seq([W(c) for c in pre])
+            if flag:
+                return seq([cond, alt(("vguard", flag, W(th)), W(el) if el else ("skip",))])
+            return seq([cond, alt(W(th), W(el) if el else ("skip",))])
+        if k in ("WhileStmt", "DoStmt", "ForStmt", "CXXForRangeStmt", "SwitchStmt"):
+            return loop(seq([alt(W(c), ("skip",)) for c in inner]))
+        if k == "ConditionalOperator" and len(inner) == 3:
+            return seq([W(inner[0]), alt(W(inner[1], mode), W(inner[2], mode))])
+        if k == "ReturnStmt":
+            return seq([W(c) for c in inner] + [("ret",)])
+        if k in ("BreakStmt", "ContinueStmt"):
+            return ("ret",)
+        if k == "VarDecl":
+            if n.get("storageClass") == "static":
+                return ("skip",)     # zero / constant initialisation of the static itself (guard variable handled by the compiler)
+            t = (n.get("type") or {})
+            dq = t.get("desugaredQualType", t.get("qualType", "")).strip()
+            m = "w" if (dq.endswith("&") and not dq[:-1].strip().startswith("const ")) else "r"
+            return seq([W(c, m) for c in inner])
+        if k == "LambdaExpr":
+            return alt(seq([W(c) for c in inner if c.get("kind") == "CompoundStmt"]), ("skip",))
+        if k == "ImplicitCastExpr" and n.get("castKind") == "LValueToRValue":
+            return seq([W(c, "r") for c in inner])
+        if k in ("ImplicitCastExpr", "ParenExpr", "CStyleCastExpr", "CXXStaticCastExpr", "MaterializeTemporaryExpr", "ExprWithCleanups",
+                 "CXXBindTemporaryExpr", "MemberExpr", "ArraySubscriptExpr", "CXXFunctionalCastExpr", "CXXReinterpretCastExpr"):
+            return seq([W(c, mode) for c in inner])
+        return seq([W(c) for c in inner])
+
+    def in_main(self, df):
+        loc = df.get("loc") or {}
+        f = loc.get("file") or (loc.get("spellingLoc") or {}).get("file") or (loc.get("expansionLoc") or {}).get("file")
+        inc = loc.get("includedFrom") or (loc.get("spellingLoc") or {}).get("includedFrom") or (loc.get("expansionLoc") or {}).get("includedFrom")
+        return df.get("_in_main", False)
+
+    def inline(self, df):
+        key = df["id"]
+        if key in self.stack or len(self.stack) > 16:
+            return ("vcall", "?", "<recursive:%s>" % self.tu.func_name(df))
+        if key not in self.memo:
+            self.stack.append(key)
+            name = re.sub(r"<.*>", "", self.tu.func_name(df))
+            body = seq([self.walk(name, c) for c in df.get("inner", []) or [] if isinstance(c, dict) and c.get("kind") == "CompoundStmt"])
+            self.stack.pop()
+            self.memo[key] = body
+        t = self.memo[key]
+        return ("vinl", t) if t not in (("skip",), ("ret",)) else ("skip",)
+
+
+def mark_main_file(tu):
+    """clang json records the file only when it changes: replay the location stream to tag function definitions of the main file"""
+    cur = [None]
+
+    def rec(n):
+        loc = n.get("loc") or {}
+        for l in (loc, loc.get("spellingLoc") or {}, loc.get("expansionLoc") or {}):
+            if "file" in l:
+                cur[0] = l["file"]
+        rng = (n.get("range") or {}).get("begin") or {}
+        for l in (rng, rng.get("spellingLoc") or {}, rng.get("expansionLoc") or {}):
+            if "file" in l:
+                cur[0] = l["file"]
+        if n.get("kind") in FUNC_KINDS:
+            n["_in_main"] = (cur[0] == tu.path)
+        for c in n.get("inner", []) or []:
+            if isinstance(c, dict):
+                rec(c)
+    rec(tu.root)
+
+
+def emit_vtree(t):
+    k = t[0]
+    if k == "skip":
+        return "VSkip"
+    if k == "ret":
+        return "VRet"
+    if k == "vatomic":
+        return "VAtomic %s %s" % (coq_str(t[1]), coq_str(t[2]))
+    if k == "vplain":
+        return "VPlain %s %s %s" % (coq_str(t[1]), coq_str(t[2]), "true" if t[3] == "W" else "false")
+    if k == "vcall":
+        return "VCall %s %s" % (coq_str(t[1]), coq_str(t[2]))
+    if k == "vinl":
+        return emit_vtree(t[1])
+    if k == "vguard":
+        return "VGuard %s (%s)" % (coq_str(t[1]), emit_vtree(t[2]))
+    if k == "seq":
+        s = emit_vtree(t[1][-1])
+        for it in reversed(t[1][:-1]):
+            s = "VSeq (%s)\n   (%s)" % (emit_vtree(it), s)
+        return s
+    if k == "alt":
+        return "VAlt (%s)\n   (%s)" % (emit_vtree(t[1]), emit_vtree(t[2]))
+    if k == "loop":
+        return "VLoop (%s)" % emit_vtree(t[1])
+    raise ValueError(k)
+
+
+def gen_statics(repo):
+    entries = []
+    for rel, want in STATIC_TUS:
+        tu = TU(os.path.join(repo, rel), repo)
+        mark_file_scope(tu)
+        mark_main_file(tu)
+        sb = StaticsBuilder(tu, tu.path)
+        seen = set()
+        for nid, n in tu.defs.items():
+            if n.get("id") != nid or not n.get("_in_main") or n.get("storageClass") == "static":
+                continue
+            name = re.sub(r"<.*>", "", tu.func_name(n))
+            if not want(name):
+                continue
+            sig = name + " : " + (n.get("type") or {}).get("qualType", "")
+            if sig in seen:
+                continue
+            seen.add(sig)
+            entries.append((sig, sb.inline(n)))
+    out = []
+    out.append("(* GENERATED by tools/c11_skeleton.py from asmjit/core/virtmem.cpp + cpuinfo.cpp (clang -ast-dump=json): accesses to variables with")
+    out.append("   static storage duration in the public VirtMem functions and CpuInfo::host(). Do not edit. *)")
+    out.append("From Coq Require Import String List Bool.")
+    out.append("From Verif Require Import Conc.StaticsModel.")
+    out.append("Import ListNotations.")
+    out.append("Local Open Scope string_scope.")
+    out.append("")
+    out.append("Definition static_entry_points : list (string * vsk) :=")
+    out.append("  [" + ";\n   ".join("(%s,\n    %s)" % (coq_str(sig), emit_vtree(t)) for sig, t in sorted(entries)) + "].")
+    out.append("")
+    out.append("Lemma statics_ok : vcheck_program static_entry_points = [].")
+    out.append("Proof. vm_compute. reflexivity. Qed.")
+    out.append("")
+    return "\n".join(out), [s for s, _ in sorted(entries)]
